@@ -38,7 +38,7 @@ def facts(tier, ndebug=True):
         return _cache[key]
     hws = [h_w(T, M) for T, M in combos(tier)]
     hrs = [h_r(T, M) for T, M in combos(tier)]
-    harness.build(hws + hrs, "ioarr%d" % ndebug, per_tu=4, ndebug=ndebug)
+    harness.build(hws + hrs, "ioarr%d" % ndebug, per_tu=4, ndebug=ndebug, callees=True)
     out = []
     for hw, hr in zip(hws, hrs):
         out.append((hw, hr, analyse_writer(hw) if not hw.error else None, analyse_reader(hr) if not hr.error else None))
@@ -88,17 +88,21 @@ def counter_iv(f):
 def writer_shape(fw):
     """'per-element': one loop with a 0,1,2,.. counter whose writes have constant sizes and analysable addresses, nothing
     else written between count word and footer; 'bulk': no loop, one write between count word and footer; else None"""
-    if len(fw["loops"]) == 1 and counter_iv(fw) is not None and fw["loop_items"] and len(fw["pre"]) == 4 and len(fw["post"]) == 2 \
+    if len(fw["loops"]) == 1 and counter_iv(fw) is not None and fw["loop_items"] and fw["head_bytes"] == 20 and fw["tail_bytes"] == 8 \
             and all(it["bytes"] is not None and it["terms"] is not None for it in fw["loop_items"]):
         return "per-element"
-    if not fw["loops"] and len(fw["pre"]) == 7:
+    if not fw["loops"] and len(fw["bulk"]) == 1 and fw["head_bytes"] == 20 and fw["tail_bytes"] == 8:
         return "bulk"
     return None
 
 
 def reader_shape(fr):
+    """'per-element': header words, width word, count word, ONE loop with a 0,1,2,.. counter whose reads have constant
+    sizes and whose stores are directly addressed, footer words - and no other read; else None"""
     if len(fr["loops"]) == 1 and counter_iv(fr) is not None and fr["loop"] and all(c.args[2][0] == 'ci' for c in fr["loop"]) \
-            and all(dyn_parts(st.off)[0] is not None for st in fr["stores"]):
+            and all(dyn_parts(st.off)[0] is not None for st in fr["stores"]) \
+            and fr["prefix_ok"] and all(c.args[2][0] == 'ci' for c in fr["post"]) and sum(c.args[2][1] for c in fr["post"]) == 8 \
+            and len(fr["pre"]) + len(fr["post"]) + len(fr["loop"]) == fr["nreads"]:
         return "per-element"
     return None
 
@@ -191,6 +195,26 @@ def analyse_writer(h):
         const, terms = dyn_parts(p[2]) if p[0] == 'ptr' else (None, None)
         items.append({"bytes": c.args[2][1] if c.args[2][0] == 'ci' else None, "base": p[1] if p[0] == 'ptr' else None, "const": const, "terms": terms, "call": c})
     f["loop_items"] = items
+    # prefix / suffix by stream byte offset (how many write calls emit them does not matter)
+    if loop:
+        head, bulk, tail = f["pre"], [], f["post"]
+    else:
+        k = next((i for i, it in enumerate(f["pre"]) if it[0] is None), None)
+        head, bulk, tail = (f["pre"], [], []) if k is None else (f["pre"][:k], [f["pre"][k]], f["pre"][k + 1:])
+    f["bulk"] = bulk
+
+    def flat(itemsl):
+        out, off = {}, 0
+        for n, content, c in itemsl:
+            if n is None:
+                return None, None
+            for (co, csz, t) in (content or []):
+                out[off + co] = (csz, ir.ungate(t))
+            out[('src', off)] = (n, c.args[1])
+            off += n
+        return out, off
+    f["head"], f["head_bytes"] = flat(head)
+    f["tail"], f["tail_bytes"] = flat(tail)
     f["iv"] = {k: (v["init"], s.iv_step(k)) for k, v in s.iv.items()}
     f["latch"] = [ir.common_lits(c) for c in getattr(s, "latch_cond", {}).values()]
     f["other_calls"] = [c for c in s.calls if c.name != io.WRITE and not (c.name or "").startswith(("__cxa", "_ZNSt11logic_error", "_ZNSt"))]
@@ -199,12 +223,25 @@ def analyse_writer(h):
 
 def analyse_reader(h):
     T, M = h.meta["T"], h.meta["M"]
-    s = ir.Sym(h.func, epochs=True, cut_loops=True)
+    s = io.normalise_throws(ir.Sym(h.func, epochs=True, cut_loops=True), h.module)
     f = {"sym": s, "loops": s.loops}
     rs = [c for c in s.calls if c.name == io.READ]
     loop = [c for c in rs if s.in_loop(c.block)]
     first_loop = min([c.n for c in loop]) if loop else 10 ** 9
+    f["nreads"] = len(rs)
     f["pre"] = [c for c in rs if not s.in_loop(c.block) and c.n < first_loop]
+    # the prefix by stream offset: bytes 0..8 header words (read in any number of calls), 8..12 width word, 12..20 count word
+    off, f["width_call"], f["count_call"], f["prefix_ok"] = 0, None, None, True
+    for c in f["pre"]:
+        if c.args[2][0] != 'ci':
+            f["prefix_ok"] = False
+            break
+        if off == 8 and c.args[2][1] == 4:
+            f["width_call"] = c
+        if off == 12 and c.args[2][1] == 8:
+            f["count_call"] = c
+        off += c.args[2][1]
+    f["prefix_ok"] = f["prefix_ok"] and off == 20 and f["width_call"] is not None and f["count_call"] is not None
     f["loop"] = loop
     f["post"] = [c for c in rs if not s.in_loop(c.block) and c.n > first_loop]
     f["news"] = [c for c in s.calls if c.name in ("_Znam",) and ir.atoms(c.args[0] if c.args else ('ci', 0, 64)) & {a for a in ir.atoms(c.args[0]) if a[0] == 'wr'}] if True else []
@@ -213,7 +250,7 @@ def analyse_reader(h):
     f["latch"] = [ir.common_lits(c) for c in getattr(s, "latch_cond", {}).values()]
     f["iv"] = {k: (v["init"], s.iv_step(k)) for k, v in s.iv.items()}
     f["throws"] = [ir.common_lits(c.cond) for c in s.calls if c.name == io.THROW]
-    f["asserts"] = [c for c in s.calls if c.name == "__assert_fail"]
+    f["asserts"] = [c for c in s.calls if c.name == "__assert_fail" and not dead(c.cond)]     # on a path that is not contradictory in itself
     return f
 
 
@@ -277,18 +314,21 @@ def check_writer(rep, rid, hw, fw):
     obj = ('arg', 0)
     why = None
     shape = writer_shape(fw)
-    pre = fw["pre"]
-    post = fw["post"] if shape != "bulk" else pre[5:7]
-    if len(pre) < 4 or not const_content(pre[0], io.MAGIC_HEADER, 4) or not const_content(pre[1], TAG, 4):
+    head, tail = fw["head"] or {}, fw["tail"] or {}
+    word = lambda m, o: m[o][1][1] if o in m and m[o][0] == 4 and m[o][1][0] == 'ci' else None
+    if fw["head_bytes"] != 20 or word(head, 0) != io.MAGIC_HEADER or word(head, 4) != TAG:
+        if fw["head"] is None or fw["head_bytes"] != 20:
+            rep.undecided("array<%s,%d> writer: the payload is not preceded by 20 bytes written with constant sizes; not decided" % (T, M))
+            return None
         why = "payload is not preceded by the global magic word and the array tag"
-    elif not const_content(pre[2], sz, 4):
+    elif word(head, 8) != sz:
         why = "float-width word written is not sizeof(%s) = %d" % (T, sz)
-    elif pre[3][0] != 8 or pre[3][2].args[1] != ('ptr', obj, 0):
+    elif head.get(('src', 12)) != (8, ('ptr', obj, 0)) and not (head.get(12, (0, None))[0] == 8 and head[12][1][:4] == ('ld', obj, 0, 8)):
         why = "element-count word is not the 8-byte m_size member"
-    elif shape is not None and (len(post) != 2 or not const_content(post[0], io.MAGIC_FOOTER, 4) or not const_content(post[1], (TAG + io.FOOTER_DELTA) & 0xFFFFFFFF, 4)):
+    elif shape is not None and (word(tail, 0) != io.MAGIC_FOOTER or word(tail, 4) != (TAG + io.FOOTER_DELTA) & 0xFFFFFFFF):
         why = "payload is not followed by the magic footer and the array footer tag"
     elif shape == "bulk":
-        c = pre[4][2]
+        c = fw["bulk"][0][2]
         want = ir.Poly.const(M * sz, 1 << 64) * ir.Poly.atom(('ld', obj, 0, 8, 'i64', 0), 1 << 64)
         got = ir.to_poly(c.args[2], 'int', width=64, atomize=lambda t: ('ld', obj, 0, 8, 'i64', 0) if t[0] == 'ld' and t[1] == obj and t[2] == 0 and t[3] == 8 else None)
         p = c.args[1]
@@ -330,30 +370,84 @@ def check_writer(rep, rid, hw, fw):
     return True
 
 
+def dead(y):
+    """is the condition contradictory once its own conjuncts are assumed (a branch on a value that was selected by an
+    earlier conjunct of the same path: `kind = width == 4 ? single : double; ... if (kind == double)`)"""
+    from .hilbert_curve import const_fold
+    if y == ir.FALSE:
+        return True
+    for _ in range(3):
+        z = y
+        for l in ir.common_lits(y):
+            z = const_fold(ir.restrict(z, l[1] if l[0] == 'not' else l, l[0] != 'not'))
+        if z == ir.FALSE:
+            return True
+        if z == y:
+            break
+        y = z
+    return False
+
+
+def assume(x, lits):
+    """simplify x under the assumption that every literal holds; the literals are kept in step with the rewriting, so a
+    literal that mentions a sub-condition already assumed is still recognised"""
+    from .hilbert_curve import const_fold
+    lits = [const_fold(l) for l in lits]
+    x = const_fold(x)
+    i = 0
+    while i < len(lits):
+        l = lits[i]
+        i += 1
+        if l in (ir.TRUE, ir.FALSE) or not isinstance(l, tuple):
+            continue
+        core, pol = (l[1], False) if l[0] == 'not' else (l, True)
+        x = const_fold(ir.restrict(x, core, pol))
+        lits[i:] = [const_fold(ir.restrict(m, core, pol)) for m in lits[i:]]
+    return x
+
+
+def prune(x):
+    """drop the alternatives of a disjunction that are contradictory in themselves"""
+    if isinstance(x, tuple) and x and x[0] == 'or':
+        a, b = prune(x[1]), prune(x[2])
+        if dead(a):
+            return b
+        if dead(b):
+            return a
+        return ir.mk_or(a, b)
+    if isinstance(x, tuple) and x and x[0] == 'and':
+        return ir.mk_and(prune(x[1]), prune(x[2]))
+    return x
+
+
 def reader_branches(hr, fr):
     """per on-disk width (4, 8): [(bytes read, store offset const, store stride terms, conversion)] for one iteration"""
     T, M = hr.meta["T"], hr.meta["M"]
     pre = fr["pre"]
-    if len(pre) != 4:
+    if not fr["prefix_ok"]:
         return None, "reader does not start with header (2 words), width word and count word"
-    wcall = pre[2].n
+    wcall = fr["width_call"].n
     eq4 = ('cmp', 'eq', ('wr', wcall, 1, 0, 4, 'i32'), ('ci', 4, 32))
     eq8 = ('cmp', 'eq', ('wr', wcall, 1, 0, 4, 'i32'), ('ci', 8, 32))
 
+    watom = ('wr', wcall, 1, 0, 4, 'i32')
+
     def under(x, truth):
-        # the width word is 4 or 8 (C08.f): in the width-4 rounds eq4 holds and eq8 does not, and vice versa
-        return ir.restrict(ir.restrict(x, eq4, truth), eq8, not truth)
+        # the width word is 4 or 8 (C08.f): evaluate everything that is computed from it (comparisons, an enum derived
+        # from it, ...) with the word fixed to that value
+        from .hilbert_curve import subst, const_fold
+        return const_fold(subst(ir.restrict(ir.restrict(x, eq4, truth), eq8, not truth), {watom: ('ci', 4 if truth else 8, 32)}))
     out = {}
     for width, truth in ((4, True), (8, False)):
         reads = []
         for c in fr["loop"]:
             cw = under(c.cond, truth)
-            if cw != ir.FALSE:
+            if not dead(cw):
                 reads.append(c)
         entries = []
         for st in sorted(fr["stores"], key=lambda s_: (dyn_parts(s_.off)[0] or 0)):
             cw = under(st.cond, truth)
-            if cw == ir.FALSE:
+            if dead(cw):
                 continue
             v = ir.ungate(under(ir.ungate(st.val), truth))
             if v[0] == 'sel':
@@ -394,12 +488,10 @@ def check_reader(rep, rid, hr, fr):
         return None
     br, why = reader_branches(hr, fr)
     if why is None:
-        if [c.args[2][1] for c in pre] != [4, 4, 4, 8]:
-            why = "prefix reads %s bytes, expected header words (4,4), width word (4), count word (8)" % [c.args[2][1] for c in pre]
-        elif [c.args[2][1] for c in fr["post"]] != [4, 4]:
+        if sum(c.args[2][1] for c in fr["post"]) != 8:
             why = "payload is not followed by the two footer words"
     if why is None:
-        cnt = pre[3].n
+        cnt = fr["count_call"].n
         why = loop_shape(fr, lambda t: io.norm_rd(t)[:5] == ('wr', cnt, 1, 0, 8))
     if why is None:
         for width in (4, 8):
@@ -442,7 +534,7 @@ def check_reader(rep, rid, hr, fr):
                 break
     if why is None:
         o = fr["outs"]
-        cnt = pre[3].n
+        cnt = fr["count_call"].n
         if 0 not in o or io.norm_rd(o[0].val)[:5] != ('wr', cnt, 1, 0, 8):
             why = "m_size of the loaded object is not the count word read"
         elif 8 not in o or not (o[8].val[0] == 'cast' and o[8].val[3][0] == 'ptr' and o[8].val[3][1][0] == 'ret' or (o[8].val[0] == 'ptr' and o[8].val[1][0] == 'ret')):
@@ -479,13 +571,26 @@ def declare_c07(rep):
     rep.rule("C07.c-array", "array payload grammar equals the frozen format (width word, 8-byte count, M scalars per element in order)", floor=4)
 
 
+def canonical_frame(fw):
+    """(prefix byte pattern, width word, suffix byte pattern) by stream offset: [4,4,4,8] means two 4-byte constant words, a
+    4-byte constant width word and an 8-byte count at offsets 0,4,8,12 - in however many write calls"""
+    head, tail = fw["head"] or {}, fw["tail"] or {}
+    cw = lambda m, o: o in m and m[o][0] == 4 and m[o][1][0] == 'ci'
+    if fw["head_bytes"] == 20 and cw(head, 0) and cw(head, 4) and cw(head, 8) and (head.get(('src', 12), (0,))[0] == 8 or head.get(12, (0,))[0] == 8):
+        pre = [4, 4, 4, 8]
+    else:
+        pre = [p[0] for p in fw["pre"]]
+    suf = [4, 4] if fw["tail_bytes"] == 8 and cw(tail, 0) and cw(tail, 4) else [v[0] for k, v in sorted((k, v) for k, v in tail.items() if isinstance(k, int))]
+    return pre, (head[8][1][1] if cw(head, 8) else None), suf
+
+
 def extract_format():
     out = {}
     for hw, hr, fw, fr in facts("thorough"):
         if fw:
             T, M = hw.meta["T"], hw.meta["M"]
-            out["array<%s,%d>" % (T, M)] = {"prefix_bytes": [p[0] for p in fw["pre"]], "width_word": fw["pre"][2][1][0][2][1] if fw["pre"][2][1] else None,
-                                           "per_element": [it["bytes"] for it in fw["loop_items"]], "suffix_bytes": [p[0] for p in fw["post"]]}
+            pre_, ww_, suf_ = canonical_frame(fw)
+            out["array<%s,%d>" % (T, M)] = {"prefix_bytes": pre_, "width_word": ww_, "per_element": [it["bytes"] for it in fw["loop_items"]], "suffix_bytes": suf_}
     return out
 
 
@@ -522,14 +627,14 @@ def run_c07(rep, tier):
             continue
         if shape == "bulk":
             # one write of m_size * M * sizeof(scalar) buffer bytes: the same byte stream as M scalars per element in order (C06.A-write decides the size)
-            cur = {"prefix_bytes": [p[0] for p in fw["pre"][:4]], "width_word": fw["pre"][2][1][0][2][1] if fw["pre"][2][1] else None,
-                   "per_element": [SZ[T]] * M, "suffix_bytes": [p[0] for p in fw["pre"][5:7]]}
+            pre_, ww_, suf_ = canonical_frame(fw)
+            cur = {"prefix_bytes": pre_, "width_word": ww_, "per_element": [SZ[T]] * M, "suffix_bytes": suf_}
         else:
             per = [it["bytes"] for it in fw["loop_items"]]
             if sum(per) == M * SZ[T] and all(it["const"] == sum(per[:j]) for j, it in enumerate(fw["loop_items"])):
                 per = [SZ[T]] * M       # writes that tile one element in order are the same byte stream as M scalar writes
-            cur = {"prefix_bytes": [p[0] for p in fw["pre"]], "width_word": fw["pre"][2][1][0][2][1] if len(fw["pre"]) > 2 and fw["pre"][2][1] else None,
-                   "per_element": per, "suffix_bytes": [p[0] for p in fw["post"]]}
+            pre_, ww_, suf_ = canonical_frame(fw)
+            cur = {"prefix_bytes": pre_, "width_word": ww_, "per_element": per, "suffix_bytes": suf_}
         if inst not in frozen:
             raise AnalysisBroken("array instantiation %s missing from the frozen format table" % inst)
         if cur != frozen[inst]:
@@ -563,10 +668,11 @@ def run_c08(rep, tier):
             else:
                 rep.ok("C08.c-array", inst)
             pre = fr["pre"]
-            if len(pre) != 4:
-                rep.fail("C08.f", inst, FILE, "unexpected prefix of %d reads" % len(pre))
+            if not fr["prefix_ok"]:
+                rep.undecided("array<%s,%d> reader: does not start with two header words, a 4-byte width word and an 8-byte count word (%d reads ahead of the payload loop); C08.f/g not decided" % (T, M, len(pre)))
                 continue
-            wcall, ccall = pre[2].n, pre[3].n
+            wcall, ccall = fr["width_call"].n, fr["count_call"].n
+            pre = [None, None, fr["width_call"], fr["count_call"]]
             lits_count = ir.common_lits(pre[3].cond)
             okw = [l for l in lits_count if io.state_ok_epoch(l, 0) == wcall + 1]
             eq4 = ('cmp', 'eq', ('wr', wcall, 1, 0, 4, 'i32'), ('ci', 4, 32))
@@ -589,9 +695,7 @@ def run_c08(rep, tier):
 
                 def on_my_path(x):
                     # the condition restricted to the rounds in which this read executes (e.g. its on-disk width branch)
-                    for l in ir.common_lits(c.cond):
-                        x = ir.restrict(x, l[1] if l[0] == 'not' else l, l[0] != 'not')
-                    return x
+                    return prune(assume(x, sorted(ir.common_lits(c.cond), key=lambda l: len(repr(l)))))
                 mine = [ir.common_lits(on_my_path(x)) for (src, dst), x in latches.items() if dst in hdrs]
                 mine = [x for x in mine if ir.FALSE not in x]
                 stores = [(st, ir.common_lits(on_my_path(st.cond))) for st in fr["stores"]]
